@@ -59,6 +59,7 @@ static void atom_text(const char* a, char* cond, size_t* co, char* strs, size_t*
   {
   case 'T': *co += snprintf(cond + *co, SRCMAX - *co, "true"); break;
   case 'F': *co += snprintf(cond + *co, SRCMAX - *co, "false"); break;
+  case 'U': *co += snprintf(cond + *co, SRCMAX - *co, "uint8(100000) == 1"); break;   // undefined on every test buffer
   case 'z': *co += snprintf(cond + *co, SRCMAX - *co, "filesize > %s", a + 1); break;
   case 'r': *co += snprintf(cond + *co, SRCMAX - *co, "r%s", a + 1); break;
   case 'x': *co += snprintf(cond + *co, SRCMAX - *co, "not r%s", a + 1); break;
